@@ -10,6 +10,27 @@ import (
 	zz "github.com/meshplus/bitxhub/internal/zzverif"
 )
 
+var zzEvictHashes = []string{
+	"0x6111111111111111111111111111111111111111111111111111111111111111",
+	"0x6222222222222222222222222222222222222222222222222222222222222222",
+	"0x6333333333333333333333333333333333333333333333333333333333333333",
+	"0x6444444444444444444444444444444444444444444444444444444444444444",
+	"0x6555555555555555555555555555555555555555555555555555555555555555",
+	"0x6666666666666666666666666666666666666666666666666666666666666666",
+	"0x6777777777777777777777777777777777777777777777777777777777777777",
+}
+
+var zzFillerHashes = []string{
+	"0x7111111111111111111111111111111111111111111111111111111111111111",
+	"0x7222222222222222222222222222222222222222222222222222222222222222",
+	"0x7333333333333333333333333333333333333333333333333333333333333333",
+	"0x7444444444444444444444444444444444444444444444444444444444444444",
+	"0x7555555555555555555555555555555555555555555555555555555555555555",
+	"0x7666666666666666666666666666666666666666666666666666666666666666",
+	"0x7777777777777777777777777777777777777777777777777777777777777777",
+	"0x7888888888888888888888888888888888888888888888888888888888888888",
+}
+
 // ZZH_C19_evict: bounded history of submissions (symbolic nonces, so transactions may arrive
 // before their lower nonces and be parked first), pauses of the wall clock and runs of the age
 // rule RemoveAliveTimeoutTxs(50ms) on a pool that has not batched yet (follower / below batch
@@ -54,7 +75,7 @@ func ZZH_C19_evict() {
 	nReady := zz.Choice("readyBefore", 3)
 	descending := nReady == 2 && zz.Choice("readyBeforeOrder", 2) == 1
 	for r := nReady; r > 0; r-- {
-		h := zzHashes[nextHash]
+		h := zzEvictHashes[nextHash]
 		off := uint64(nextHash)
 		if descending {
 			off = uint64(nReady - 1 - nextHash)
@@ -69,16 +90,32 @@ func ZZH_C19_evict() {
 	}
 	pauses := 0
 	arrivedAt := map[*zzSubmitted]int{} // number of pauses that had passed when the transaction arrived
+	// second pre-state outside the step budget: each account has an old parked transaction (account 0
+	// two nonces ahead, account 1 three nonces ahead), both older than the threshold when the steps begin
+	if nReady == 0 && zz.Choice("parkedBefore", 2) == 1 {
+		for ai, ahead := range []uint64{2, 3} {
+			h := zzEvictHashes[nextHash]
+			nextHash++
+			tx := &pb.BxhTransaction{From: zzAccts[ai], To: zzAccts[1-ai], Nonce: m.committed[ai] + ahead, Timestamp: 1, TransactionHash: types.NewHashByStr(h)}
+			s := &zzSubmitted{acct: ai, nonce: tx.Nonce, hash: h, tx: tx}
+			m.subs = append(m.subs, s)
+			zzCheckBatch(m, mp.ProcessTransactions([]pb.Transaction{tx}, false, true), batchSize)
+			s.admitted = present(s)
+			arrivedAt[s] = 0
+		}
+		zz.Pause(int64(100 * time.Millisecond))
+		pauses++
+	}
 	for step := 0; step < k; step++ {
 		switch zz.Choice("op", 3) {
 		case 0:
-			if nextHash >= len(zzHashes) {
+			if nextHash >= len(zzEvictHashes) {
 				continue
 			}
 			ai := zz.Choice("acct", 2)
 			// (candidate nonces instead of a symbolic one: time is the subject of this harness)
 			nonce := m.committed[ai] + uint64(zz.Choice("nonce", 4))
-			h := zzHashes[nextHash]
+			h := zzEvictHashes[nextHash]
 			nextHash++
 			tx := &pb.BxhTransaction{From: zzAccts[ai], To: zzAccts[1-ai], Nonce: nonce, Timestamp: int64(1 + step), TransactionHash: types.NewHashByStr(h)}
 			s := &zzSubmitted{acct: ai, nonce: nonce, hash: h, tx: tx}
@@ -114,8 +151,45 @@ func ZZH_C19_evict() {
 	}
 	// drain: everything ready is batched
 	want := []uint64{m.committed[0] + chain(0), m.committed[1] + chain(1)}
-	for round := 0; round < 3; round++ {
+	for round := 0; round < 6; round++ {
 		zzCheckBatch(m, mp.GenerateBlock(), batchSize)
 	}
 	zz.Assert("C19.evict.ready-txs-batched", m.nextBatch[0] == want[0] && m.nextBatch[1] == want[1])
+	// continuation: the missing lower nonces arrive. Every transaction the pool still holds has all
+	// its lower nonces present then, so each of them is handed to consensus in the next batches.
+	filler := 0
+	for ai := range zzAccts {
+		top := m.committed[ai]
+		for _, s := range m.subs {
+			if s.acct == ai && present(s) && s.nonce+1 > top {
+				top = s.nonce + 1
+			}
+		}
+		for n := m.committed[ai] + chain(ai); n < top; n++ {
+			held := false
+			for _, s := range m.subs {
+				if s.acct == ai && zzSameNonce(s.nonce, n) && present(s) {
+					held = true
+				}
+			}
+			if held || filler >= len(zzFillerHashes) {
+				continue
+			}
+			h := zzFillerHashes[filler]
+			filler++
+			tx := &pb.BxhTransaction{From: zzAccts[ai], To: zzAccts[1-ai], Nonce: n, Timestamp: 9, TransactionHash: types.NewHashByStr(h)}
+			s := &zzSubmitted{acct: ai, nonce: n, hash: h, tx: tx}
+			m.subs = append(m.subs, s)
+			zzCheckBatch(m, mp.ProcessTransactions([]pb.Transaction{tx}, false, true), batchSize)
+			s.admitted = present(s)
+			zz.Assert("C19.evict.missing-nonce-admitted", s.admitted)
+		}
+		zz.Assert("C19.evict.held-txs-ready-once-gaps-are-filled", m.committed[ai]+chain(ai) == top)
+	}
+	want = []uint64{m.committed[0] + chain(0), m.committed[1] + chain(1)}
+	for round := 0; round < 8; round++ {
+		zzCheckBatch(m, mp.GenerateBlock(), batchSize)
+	}
+	zz.Assert("C19.evict.held-txs-batched-once-gaps-are-filled", m.nextBatch[0] == want[0] && m.nextBatch[1] == want[1])
+	zz.Assert("C19.evict.nothing-pending-after-drain", !mp.HasPendingRequest())
 }
